@@ -25,14 +25,20 @@ struct Probe
 	double lo, hi;
 	long calls = 0;
 	double xmin = 1e308, xmax = -1e308;
+	bool nan_abscissa = false, nonfinite_value = false;
 	double operator()(double x)
 	{
 		calls++;
+		if(x != x)
+			nan_abscissa = true;
 		if(x < xmin)
 			xmin = x;
 		if(x > xmax)
 			xmax = x;
-		return f(x);
+		double v = f(x);
+		if(!std::isfinite(v))
+			nonfinite_value = true;
+		return v;
 	}
 };
 
@@ -46,7 +52,11 @@ Fn make_function(Ctx& c, double& lo, double& hi)
 	std::ostringstream d;
 	d << std::setprecision(17);
 	int fam = s.pick({2, 4, 2, 2, 3, 2, 2, 2});
-	double amp = s.chance(0.3) ? s.sign() * std::pow(10.0, s.uniform(-30, 30)) : s.sign();
+	// amplitude: usually order one, often 1e-30..1e30, sometimes so small or large that products of two function values leave the double range
+	int ampkind = s.pick({12, 6, 1, 1});
+	double amp	= ampkind == 0 ? s.sign() : s.sign() * std::pow(10.0, ampkind == 1 ? s.uniform(-30, 30) : (ampkind == 2 ? s.uniform(-300, -140) : s.uniform(140, 300)));
+	if(ampkind >= 2)
+		c.cls(ampkind == 2 ? "amplitude_tiny" : "amplitude_huge");
 	switch(fam)
 	{
 		case 0:
@@ -185,16 +195,25 @@ VCLAUSE(roots, 40, 60000, 1500000, "bracket or root spans >= 2 decades, root of 
 	if(!(lo < hi) || !std::isfinite(lo) || !std::isfinite(hi))
 		throw Discard();
 	double flo = F.f(lo), fhi = F.f(hi);
-	if(!(sgn(flo) * sgn(fhi) < 0) || flo * fhi >= 0.0 || !std::isfinite(flo * fhi))   // no usable sign change in floating point (underflow/overflow of the product): outside the domain
+	if(!(sgn(flo) * sgn(fhi) < 0) || !std::isfinite(flo) || !std::isfinite(fhi))   // the statement's domain: finite values of opposite signs at the ends (their product may under- or overflow)
 		throw Discard();
+	if(flo * fhi >= 0.0 || !std::isfinite(flo * fhi))
+		c.cls("end_value_product_leaves_double_range");
 	double scale = 0;
 	for(double r : F.roots)
 		scale = std::max(scale, std::fabs(r));
 	scale		 = std::max({scale, 1e-300});
 	double width = hi - lo;
-	double accmin = 1e-14 * scale;
-	// accuracy must be resolvable at the magnitude of the bracket: at least a few ulps of the larger end
-	accmin = std::max(accmin, 8 * EPS * std::max(std::fabs(lo), std::fabs(hi)));
+	// "all accuracies from 1e-14*|root|": the resolution that matters is the one at the root, not at the far end of a wide bracket;
+	// half of the cases keep the older, coarser floor of a few ulps of the larger bracket end
+	// (for a root at or next to zero 1e-14*|root| degenerates; every bracketing method needs one iteration per halving then, and the
+	// library's budget of 200 iterations bounds what can be asked for at about 2^-200 of the width: the floor is 1e-55 of the width)
+	double accmin = std::max(1e-14 * scale, 1e-55 * width);
+	bool fine = c.s.coin();
+	if(!fine)
+		accmin = std::max(accmin, 8 * EPS * std::max(std::fabs(lo), std::fabs(hi)));
+	else
+		c.cls("accuracy_floor_at_root_scale");
 	if(!(accmin < width))
 		throw Discard();
 	double acc = std::exp(std::log(accmin) + c.s.unit() * (std::log(width) - std::log(accmin)));
@@ -209,9 +228,12 @@ VCLAUSE(roots, 40, 60000, 1500000, "bracket or root spans >= 2 decades, root of 
 	VCHECK(!g.exited, "Find_Root terminated the process on a valid bracket: " << g.text);
 	VLOG(c, "result=" << res << " evaluations=" << P.calls);
 	VCHECK(std::isfinite(res) && res >= lo && res <= hi, "result " << res << " outside the bracket [" << lo << "," << hi << "]");
+	VCHECK(!P.nan_abscissa, "function evaluated at a NaN abscissa");
 	VCHECK(P.xmin >= lo && P.xmax <= hi, "function evaluated outside the bracket: abscissae in [" << P.xmin << "," << P.xmax << "], bracket [" << lo << "," << hi << "]");
+	if(P.nonfinite_value)
+		throw Discard();   // the generated function overflowed inside the bracket: not a real-valued continuous function there
 	// oracle: the function vanishes or changes sign within acc of the result
-	double slack = acc * 1e-9 + 16 * EPS * std::max(std::fabs(lo), std::fabs(hi));
+	double slack = acc * 1e-9 + 16 * EPS * (fine ? std::max(std::fabs(res), scale) : std::max(std::fabs(lo), std::fabs(hi)));
 	double a = std::max(lo, res - acc - slack), b = std::min(hi, res + acc + slack);
 	double fa = F.f(a), fb = F.f(b), fr = F.f(res);
 	bool ok = (fa == 0 || fb == 0 || fr == 0 || sgn(fa) != sgn(fb));
@@ -240,10 +262,20 @@ VCLAUSE(linear_exact, 20, 20000, 400000, "bracket is asymmetric by >= 2 decades 
 	bool swap	 = c.s.coin();
 	if(std::fabs(std::log10(w1 / w2)) >= 2 || acc > 1e-3 * width)
 		c.nt();
-	auto f = [=](double x) { return k * (x - r); };
+	// amplitudes over the whole double range: the products of two values may under- or overflow
+	if(c.s.chance(0.15))
+	{
+		k = (k < 0 ? -1 : 1) * std::pow(10.0, c.s.sign() * c.s.uniform(140, 290)) / std::max(w1, w2);
+		c.cls("amplitude_extreme");
+	}
+	std::function<double(double)> f = [=](double x) { return k * (x - r); };
+	if(!std::isfinite(f(lo)) || !std::isfinite(f(hi)) || f(lo) == 0 || f(hi) == 0)
+		throw Discard();
 	VLOG(c, "f=" << k << "*(x-" << r << ") on [" << lo << "," << hi << "] acc=" << acc << " swap=" << swap);
 	double res = 0;
-	VMUST_RETURN("Find_Root on a linear function", res = libphysica::Find_Root(f, swap ? hi : lo, swap ? lo : hi, acc));
+	Probe P {f, lo, hi};
+	VMUST_RETURN("Find_Root on a linear function", res = libphysica::Find_Root(std::ref(P), swap ? hi : lo, swap ? lo : hi, acc));
+	VCHECK(!P.nan_abscissa && P.xmin >= lo && P.xmax <= hi, "function evaluated outside the bracket: abscissae in [" << P.xmin << "," << P.xmax << "], bracket [" << lo << "," << hi << "]");
 	double tol = 64 * EPS * std::max(std::fabs(lo), std::fabs(hi));
 	VCLOSE(c, "linear_root", res, r, tol, "linear function must be solved exactly (to rounding), independent of the accuracy " << acc);
 }
@@ -257,22 +289,30 @@ VCLAUSE(zero_end, 20, 12000, 250000, "the zero is the upper end, or both ends ar
 	if(other == r)
 		throw Discard();
 	std::function<double(double)> f;
+	double sg = c.s.coin() ? 1.0 : -1.0;   // increasing or decreasing (a decreasing function returns -0.0 at its zero)
+	double mag = c.s.chance(0.2) ? std::pow(10.0, c.s.sign() * c.s.uniform(100, 250)) : 1.0;
+	sg *= mag;
 	if(both)
-		f = [=](double x) { return (x - r) * (x - other); };
+		f = [=](double x) { return sg * (x - r) * (x - other); };
 	else if(fam == 0)
-		f = [=](double x) { return 3.0 * (x - r); };
+		f = [=](double x) { return sg * 3.0 * (x - r); };
 	else if(fam == 1)
-		f = [=](double x) { return std::atan(x - r); };
+		f = [=](double x) { return sg * std::atan(x - r); };
 	else
-		f = [=](double x) { return (x - r) * (1.0 + x * x); };
+		f = [=](double x) { return sg * ((x - r) * (1.0 + x * x)); };
+	c.cls(sg < 0 ? "decreasing" : "increasing");
 	double lo = std::min(r, other), hi = std::max(r, other);
 	if(upper || both || swap)
 		c.nt();
 	double acc = (hi - lo) * std::pow(10.0, c.s.uniform(-10, 0));
 	VLOG(c, "zero at end " << r << " other end " << other << " both=" << both << " fam=" << fam << " swap=" << swap << " acc=" << acc);
 	VCHECK(f(r) == 0.0, "harness: constructed end is not an exact zero");
+	if(!std::isfinite(f(other)) || (!both && f(other) == 0.0))
+		throw Discard();
 	double res = 0;
-	VMUST_RETURN("Find_Root with a zero at a bracket end", res = libphysica::Find_Root(f, swap ? hi : lo, swap ? lo : hi, acc));
+	Probe P {f, lo, hi};
+	VMUST_RETURN("Find_Root with a zero at a bracket end", res = libphysica::Find_Root(std::ref(P), swap ? hi : lo, swap ? lo : hi, acc));
+	VCHECK(!P.nan_abscissa && P.xmin >= lo && P.xmax <= hi, "function evaluated outside the bracket: abscissae in [" << P.xmin << "," << P.xmax << "], bracket [" << lo << "," << hi << "]");
 	if(both)
 		VCHECK(res == r || res == other, "both ends are zeros, result " << res << " is neither " << r << " nor " << other);
 	else
@@ -281,7 +321,7 @@ VCLAUSE(zero_end, 20, 12000, 250000, "the zero is the upper end, or both ends ar
 
 VCLAUSE(invalid_bracket, 20, 12000, 250000, "values at the ends differ in magnitude by >= 1e6, or exactly one end is NaN")
 {
-	int kind = c.s.pick({3, 1, 1});
+	int kind = c.s.pick({3, 1, 1, 1, 1});
 	double a = c.s.mixed(-4, 4), w = std::pow(10.0, c.s.uniform(-4, 4));
 	double lo = a, hi = a + w;
 	if(!(lo < hi))
@@ -309,11 +349,27 @@ VCLAUSE(invalid_bracket, 20, 12000, 250000, "values at the ends differ in magnit
 		c.nt();
 		c.cls("nan_one_end");
 	}
-	else
+	else if(kind == 2)
 	{
 		f = [=](double) { return nanv; };
 		c.cls("nan_both_ends");
 	}
-	VLOG(c, "invalid bracket kind=" << kind << " [" << lo << "," << hi << "] swap=" << swap);
-	VMUST_EXIT("Find_Root on a bracket without sign change / with NaN", double r = libphysica::Find_Root(f, swap ? hi : lo, swap ? lo : hi, 1e-6 * w); (void) r);
+	else if(kind == 3)
+	{	// same sign, magnitudes whose product leaves the double range
+		double e1 = c.s.uniform(160, 300), e2 = c.s.uniform(160, 300), sg = c.s.sign(), dir = c.s.sign();
+		double m1 = std::pow(10.0, dir * e1), m2 = std::pow(10.0, dir * e2);
+		f = [=](double x) { double t = (x - lo) / (hi - lo); return sg * (m1 * (1 - t) + m2 * t); };
+		c.nt();
+		c.cls("no_sign_change_product_leaves_double_range");
+	}
+	else
+	{	// a zero at one end, NaN at the other: "NaN ends" terminate
+		bool at_lo = c.s.coin();
+		f = [=](double x) { return (x == (at_lo ? lo : hi)) ? nanv : ((x == lo || x == hi) ? 0.0 : 1.0); };
+		c.nt();
+		c.cls("nan_one_end_zero_other");
+	}
+	double acc = w * std::pow(10.0, c.s.uniform(-12, 0));
+	VLOG(c, "invalid bracket kind=" << kind << " [" << lo << "," << hi << "] swap=" << swap << " acc=" << acc);
+	VMUST_EXIT("Find_Root on a bracket without sign change / with NaN", double r = libphysica::Find_Root(f, swap ? hi : lo, swap ? lo : hi, acc); (void) r);
 }
